@@ -17,7 +17,7 @@ RULE = ("MazeDataset.generate / from_config over generator x kwargs (the 8 DEFAU
         "grid 2..8,12 (some 16, 20) x n_mazes {0,1,3,8,32} (some 130, 260) x seeds x endpoint-option sets (none; allowed start/end lists of size 1,2,many incl. "
         "cells outside the component; dead-end flags; endpoints_not_equal; combinations), serially and in parallel with processes "
         "in {1,2,3,5,8,16} and maxtasksperchild in {None,1,2}; a PY_START probe inherited by the forked workers injects 0-3 ms "
-        "jitter into _generate_maze_helper and logs (pid, index), so task->worker schedules vary and are recorded. Every item is "
+        "jitter into _generate_maze_helper and logs (pid, index), so task->worker schedules vary and are recorded. Also from_config with its default caching for configurations that share one cache directory and differ only in the maze count. Every item is "
         "judged against an adjacency-set model (kind, shape, walk along connections, no repeated cell, BFS-shortest, ends agree, "
         "options honoured). non-trivial & distinct = distinct (config, index, connection_list, solution) items with >= 2 cells")
 ASSUMPTIONS = ["ValueError (no valid endpoints / one-cell component) and the grid_n=1 assertion are documented rejections",
@@ -27,7 +27,7 @@ THRESHOLDS = {"quick": {
     "c03:datasets": 300, "c03:items": 2500, "c03:parallel-runs": 20, "c03:distinct-schedules": 10, "c03:opt:allowed_start": 100,
     "c03:opt:allowed_end": 100, "c03:opt:deadend_start:nontrivial": 100, "c03:opt:deadend_end:nontrivial": 100,
     "c03:opt:endpoints_not_equal": 100, "c03:opt:deadend+allowed-same-endpoint:nontrivial": 30, "c03:opt:none": 500, "c03:equal-endpoints-allowed-and-seen": 5, "c03:empty-dataset": 5,
-    "c03:from_config": 30, "c03:many-mazes": 20, "c03:large-grid": 15, "c03:worker-pids": 30, "hits:_generate_maze_helper": 1000,
+    "c03:from_config": 30, "c03:shared-cache-requests": 12, "c03:many-mazes": 20, "c03:large-grid": 15, "c03:worker-pids": 30, "hits:_generate_maze_helper": 1000,
 }}
 THRESHOLDS["thorough"] = {**THRESHOLDS["quick"], "c03:datasets": 4000, "c03:parallel-runs": 300, "c03:distinct-schedules": 100}
 ANCHORS = ["maze_dataset.dataset.maze_dataset:_generate_maze_helper",
@@ -255,3 +255,40 @@ def run(ctx):
         if i < 4:
             ctx.sample(dict(case=case, n_items=len(ds)))
     ctx.tally("c03:distinct-schedules", len(schedules))
+    _shared_cache(ctx, MazeDataset, MazeDatasetConfig, GENERATORS_MAP)
+
+
+def _shared_cache(ctx, MazeDataset, MazeDatasetConfig, GENERATORS_MAP):
+    """the config-driven entry point with its default caching, several configurations sharing one cache directory (as a user's
+    data/ directory does): configurations that differ only in the maze count, incl. counts whose shortened form in the file
+    name coincides (1000 / 1001 -> '1.0K').  Every request must return exactly the configured number of correctly solved mazes."""
+    import shutil
+    import tempfile
+
+    groups = [(2, "gen_dfs", [3, 4, 3]), (3, "gen_dfs", [120, 121]), (2, "gen_dfs", [1000, 1001, 1000]), (2, "gen_dfs_percolation", [1049, 1000]),
+              (3, "gen_wilson", [7, 8]), (2, "gen_dfs", [2040, 2010])]
+    for gi, (g_n, gen, counts) in enumerate(groups):
+        if not ctx.mine(gi):
+            continue
+        base = tempfile.mkdtemp(prefix="c03-cache-", dir=ctx.work)
+        try:
+            for step, n in enumerate(counts):
+                case = dict(kind="shared-cache", grid_n=g_n, gen=gen, counts=counts, step=step, n_mazes=n)
+                try:
+                    with warnings.catch_warnings():
+                        warnings.simplefilter("ignore")
+                        cfg = MazeDatasetConfig(name="c03-shared", grid_n=g_n, n_mazes=n, maze_ctor=GENERATORS_MAP[gen],
+                                                maze_ctor_kwargs=(dict(p=0.2) if gen == "gen_dfs_percolation" else {}), seed=5)
+                        ds = MazeDataset.from_config(cfg, local_base_path=base, do_download=False)
+                except Exception as ex:  # noqa: BLE001
+                    import traceback
+                    ctx.violation(f"C03/shared-cache/exception/{type(ex).__name__}", traceback.format_exc()[-1200:], case)
+                    continue
+                ctx.ev(); ctx.tally("c03:shared-cache-requests")
+                ctx.check(len(ds) == n and len(ds.mazes) == n, "C03/wrong-number-of-mazes",
+                          f"from_config with a shared cache directory returned {len(ds)} mazes, configured {n} (earlier requests: {counts[:step]})", case)
+                ctx.check(ds.cfg.n_mazes == n, "C03/dataset-config-disagrees", f"cfg.n_mazes={ds.cfg.n_mazes} configured {n}", case)
+                for idx in list(range(min(len(ds), 25))) + ([len(ds) - 1] if len(ds) > 25 else []):
+                    check_item(ctx, ds[idx], g_n, {}, dict(case, index=idx))
+        finally:
+            shutil.rmtree(base, ignore_errors=True)
